@@ -237,6 +237,15 @@ def _construct_internal_shapes(
 def _cleanup_run_folder(run_folder: str | Path) -> None:
     """Remove the run folder and its contents."""
     run_folder = Path(run_folder)
+    if run_folder.is_symlink():
+        # `shutil.rmtree` refuses a symbolic link (silently, with `ignore_errors=True`):
+        # empty the folder that it points to instead.
+        for path in run_folder.iterdir():
+            if path.is_dir() and not path.is_symlink():
+                shutil.rmtree(path, ignore_errors=True)
+            else:
+                path.unlink(missing_ok=True)
+        return
     shutil.rmtree(run_folder, ignore_errors=True)
 
 
